@@ -98,6 +98,33 @@ def gen_cases(ctx):
                            "txs": [{"from": i % 3, "to": (i + 1) % 3, "amt": 1}], "bad": ""})
         names = [b["name"] for b in blocks]
         cases.append({"id": "pool%d" % j, "naccts": 5, "blocks": blocks, "arrivals": list(names)})
+    # a transaction of the abandoned branch that the new branch includes AGAIN, at every position of the new branch: at a height
+    # both branches have, and in the part by which the new branch is longer (above the old tip); it is confirmed before and
+    # after: not offered back to the pool, found by getTx at its new block
+    rei = [(p, la, lb, i, j) for p in (0, 1) for la in (1, 2) for lb in (la + 1, la + 2) for i in range(la) for j in range(lb)]
+    if quick:
+        rei = [r for r in rei if r[4] >= r[2] - 1 or r[4] == 0]          # tip, first block (and all of them in the thorough tier)
+        rei = rei[::2] + [r for r in rei[1::2] if r[4] >= r[1]][:4]
+    for n_, (p, la, lb, i, j) in enumerate(rei):
+        blocks = []
+        parent = "G"
+        for k in range(p):
+            blocks.append({"name": "p%d" % k, "parent": parent, "txs": [{"from": 0, "to": 1, "amt": 1}], "bad": ""})
+            parent = "p%d" % k
+        fork = parent
+        shared = {"from": 3, "to": 4, "amt": 7}
+        for k in range(la):
+            txs = [{"from": 1, "to": 2, "amt": 1}] + ([shared] if k == i else [])
+            blocks.append({"name": "A%d" % k, "parent": (fork if k == 0 else "A%d" % (k - 1)), "txs": txs, "bad": ""})
+        for k in range(lb):
+            txs = [{"from": 2, "to": 0, "amt": 1}] + ([shared] if k == j else [])
+            blocks.append({"name": "B%d" % k, "parent": (fork if k == 0 else "B%d" % (k - 1)), "txs": txs, "bad": ""})
+        names = [b["name"] for b in blocks]
+        cases.append({"id": "reincl%d" % n_, "naccts": 5, "blocks": blocks, "arrivals": list(names)})
+        if n_ % 3 == 0:
+            a_first = [x for x in names if x[0] in "pA"]
+            cases.append({"id": "reincl%dr" % n_, "naccts": 5, "blocks": blocks,
+                          "arrivals": a_first + list(reversed([x for x in names if x[0] == "B"]))})
     # three competing branches, random
     for i in range(40 if quick else 1500):
         blocks = cd.rnd_tree(rng, rng.choice([4, 5, 6, 7]), pbad=0.3, pno=0.0)
